@@ -64,7 +64,38 @@ impl TryFrom<&[AST]> for Context {
             context.functions.insert(func.clone());
         });
 
-        context.into_with_primitives()?.into_with_std_lib()
+        context
+            .into_with_primitives()?
+            .into_with_std_lib()?
+            .no_cyclic_inheritance()
+    }
+}
+
+impl Context {
+    /// A class may not be its own ancestor, class lookup resolves parents recursively.
+    fn no_cyclic_inheritance(self) -> TypeResult<Self> {
+        let parents_of = |class: &GenericClass| -> Vec<String> {
+            let parents = class.parents.iter();
+            parents.map(|p| p.name.variant.name.clone()).collect()
+        };
+
+        for class in &self.classes {
+            let mut seen: HashSet<String> = HashSet::new();
+            let mut todo = parents_of(class);
+            while let Some(name) = todo.pop() {
+                if name == class.name.name {
+                    let msg = format!("Class '{}' cannot inherit from itself", class.name);
+                    return Err(vec![TypeErr::new(class.pos, &msg)]);
+                }
+                if seen.insert(name.clone()) {
+                    if let Some(parent) = self.classes.iter().find(|c| c.name.name == name) {
+                        todo.append(&mut parents_of(parent));
+                    }
+                }
+            }
+        }
+
+        Ok(self)
     }
 }
 
